@@ -1170,7 +1170,18 @@ func (x *Exec) binop(s *State, fr *Frame, op token.Token, l, r Value, lt, rt typ
 		o := map[token.Token]string{token.ADD: "bvadd", token.SUB: "bvsub", token.MUL: "bvmul"}[op]
 		res := BVBin(o, a, b)
 		x.checkWrap(s, fr, o, a, b, res, lt, pos, text)
-		return &Scalar{T: x.ctx.Share(res)}
+		out := &Scalar{T: x.ctx.Share(res)}
+		// uintptr(p) + n and uintptr(p) - n keep the pointer they were made from, so that
+		// unsafe.Pointer(uintptr(p) + n) is the pointer p advanced by n bytes
+		switch {
+		case op == token.ADD && ls.Ptr != nil && rs.Ptr == nil:
+			out.Ptr = &PtrV{Rgn: ls.Ptr.Rgn, Off: x.ctx.Share(Add64(ls.Ptr.Off, b)), Prov: ls.Ptr.Prov}
+		case op == token.ADD && rs.Ptr != nil && ls.Ptr == nil:
+			out.Ptr = &PtrV{Rgn: rs.Ptr.Rgn, Off: x.ctx.Share(Add64(rs.Ptr.Off, a)), Prov: rs.Ptr.Prov}
+		case op == token.SUB && ls.Ptr != nil && rs.Ptr == nil:
+			out.Ptr = &PtrV{Rgn: ls.Ptr.Rgn, Off: x.ctx.Share(Sub64(ls.Ptr.Off, b)), Prov: ls.Ptr.Prov}
+		}
+		return out
 	case token.QUO, token.REM:
 		if x.spec == 0 {
 			nz := Ne(b, BVLit(0, b.Sort.Width()))
@@ -1342,11 +1353,16 @@ func (x *Exec) convert(s *State, fr *Frame, v Value, from, to types.Type, pos to
 			// The address of a byte: an unknown base address of its region plus the offset
 			// (only differences of addresses inside one region are determined).
 			if p, ok := v.(*PtrV); ok && p.Prov == "uint8" {
-				return &Scalar{T: x.ctx.Share(Add64(x.ctx.UF("rgn$base", SBV64, p.Rgn), p.Off))}
+				return &Scalar{T: x.ctx.Share(Add64(x.ctx.UF("rgn$base", SBV64, p.Rgn), p.Off)), Ptr: p}
 			}
 			unsup("conversion of a non-byte unsafe.Pointer to uintptr")
 		case fb.Kind() == types.Uintptr && tb.Kind() == types.UnsafePointer:
-			unsup("conversion between unsafe.Pointer and uintptr")
+			// only the pattern unsafe.Pointer(uintptr(p) ± n) of the unsafe rules: the integer
+			// still carries the byte pointer it was computed from
+			if sc, ok := v.(*Scalar); ok && sc.Ptr != nil {
+				return sc.Ptr
+			}
+			unsup("conversion of an integer of unknown origin to unsafe.Pointer")
 		case fb.Info()&types.IsString != 0 && tb.Info()&types.IsString != 0:
 			return v
 		case tb.Info()&types.IsFloat != 0 || fb.Info()&types.IsFloat != 0:
